@@ -49,10 +49,13 @@ def _mentions_opaque(detail):
     return "call:" in t
 
 
+_VALUE_RULES = ("C08-R1", "C08-R2", "C08-R2c", "C08-R3", "C08-R3c", "C08-R4")       # (R5 compares what calls it deliberately does not follow return)
+
+
 def _fail(ctx, instance, where=None, detail=None, key=None):
     """a comparison that failed on a value containing a call the engine does not interpret (a library routine it has no model of, a function
     it did not follow) is not decided: what the call computes is not known, so the values were never comparable"""
-    if key is None and _mentions_opaque(detail):
+    if key is None and ctx.rule in _VALUE_RULES and _mentions_opaque(detail):
         ctx.error(instance + " [not decided: a value reaching this comparison contains a call the engine does not interpret]", where, detail)
         return
     ctx.fail(instance, where, detail, key)
@@ -1099,7 +1102,10 @@ def r3_addon_linear_part(ctx):
                                   cell["node"] if cell else lp, None if cell is None else repr(cell["value"]))
                         continue
                     pv = _u(pos.value(arr, "k"), cfg)
-                    if cell is None or not _good(pv):
+                    if pv is not None and not _good(pv):
+                        _not_lowered(ctx, f"{tag}: positive-send {label} the add-on is compared with: not lowered", lp, repr(pv), pv)
+                        continue
+                    if cell is None or pv is None:
                         _fail(ctx, f"{tag}: add-on updates the current {label}", lp, sorted({c["text"] for c in add.cells}))
                         continue
                     inc = _u(_inc(cell), cfg)
